@@ -54,6 +54,8 @@ def obs(x, depth=0, seen=None):
     if isinstance(x, NotPassed):
         return "NotPassed"
     seen2 = seen + (id(x),)
+    if isinstance(type(x), ObjectMeta):
+        return ("instance", type(x).__name__, obs(getattr(x, "_dict", None), depth + 1, seen2))
     if isinstance(x, ObjectMeta):
         d = {k: obs(v, depth + 1, seen2) for k, v in vars(x).items()
              if (not k.startswith("_") or k == "_properties") and not callable(v) and k not in ("__doc__",)}
